@@ -476,7 +476,8 @@ def main():
         with open(os.path.join(MUT, pname), 'w') as f:
             f.write(r.stdout)
         index['mutants'].append({'name': m['name'], 'patch': pname, 'what': m['what'], 'expect': m['expect']})
-    index['benign'] = []
+    old_benign = [b for b in (json.load(open(os.path.join(MUT, 'index.json'))).get('benign', []) if os.path.exists(os.path.join(MUT, 'index.json')) else []) if b.get('origin') == 'manual']
+    index['benign'] = old_benign
     for b in B:
         tmpd = tempfile.mkdtemp()
         chunks = []
